@@ -616,16 +616,28 @@ class SymChecker:
             # decided.  Witnesses of the path (solver models) are evaluated first: they refute cheaply.
             if self._standin(name, idx, bad, t):
                 return
-        s = sc.solver(min(Budget.z3_ms, Budget.thr_ms) if thr else Budget.z3_ms)
-        for h in self.hints:
-            s.add(h)
+        if thr and Budget.thr_ms <= 0:
+            # quick tier: the solver attempt for tolerance clauses on threshold paths is deferred to the thorough tier
+            self._add(Oblig(name, idx, 'open', 'standin', time.time() - t,
+                            'tolerance clause on a threshold path: solver attempt deferred to the thorough tier; bounded stand-in: %d witnesses of '
+                            'the path evaluated on the real code, none violates the tolerance' % self._standin_n))
+            return
         n, d = sc.poly_z3(r.n), sc.poly_z3(r.d)
         bz = bound.z3()
-        if bound.is_const() and bound.const() == 0:
-            s.add(n != 0)
-        else:
-            s.add(n * n > bz * bz * d * d)
-        rr = sc.check(s)
+        goal = (n != 0) if (bound.is_const() and bound.const() == 0) else (n * n > bz * bz * d * d)
+        budget = min(Budget.z3_ms, Budget.thr_ms) if thr else Budget.z3_ms
+        # first with the facts relevant to the residual only (fewer nonlinear constraints), then with all facts
+        rr = z3.unknown
+        for rel, ms in ((r.vars() | bound.vars(), max(2000, budget // 4)), (None, budget)):
+            s = sc.solver(ms, relevant=rel)
+            for h in self.hints:
+                s.add(h)
+            s.add(goal)
+            rr = sc.check(s)
+            if rr == z3.unsat:
+                break
+            if rr == z3.sat and rel is None:
+                break
         if rr == z3.unsat:
             self._add(Oblig(name, idx, 'proved', 'z3', time.time() - t))
             return
